@@ -20,16 +20,18 @@ Proof.
 Qed.
 
 (** the postcondition of a lookup: a found value pointer lies inside the mapping, behind a record header and key *)
-Definition seek_post (size len : N) (r : seek) : Prop :=
+Definition seek_post (f : bytes) (size len : N) (r : seek) : Prop :=
   match r with
-  | SFound off => len + 8 <= off /\ off <= size
+  | SFound off =>
+      len + 8 <= off /\ off <= size /\
+      exists dlen, unpack f size (off - len - 4) = Ok dlen /\ off + dlen <= size     (* the whole value is inside *)
   | SNone e => e = 0 \/ e = CDB_EINVAL
   end.
 
 Lemma walk_ok f size key len h pos lenhash :
   pos + 8 * lenhash <= size ->
   forall fuel h2, h2 < lenhash ->
-  exists r, walk f size key len h pos lenhash fuel h2 = Ok r /\ seek_post size len r.
+  exists r, walk f size key len h pos lenhash fuel h2 = Ok r /\ seek_post f size len r.
 Proof.
   intros HT. induction fuel as [|fuel IH]; intros h2 H2; cbn [walk].
   - eexists. split; [reflexivity|]. now left.
@@ -45,13 +47,14 @@ Proof.
     apply N.ltb_ge in B1, B2. cbn [orb].
     destruct (unpack_ok f size poskd) as [klen ->]; [lia|]. cbn [bind].
     destruct (klen =? len); [|exact IH].
-    destruct (unpack_ok f size (poskd + 4)) as [dlen ->]; [lia|]. cbn [bind].
+    destruct (unpack_ok f size (poskd + 4)) as [dlen ED]; [lia|]. rewrite ED. cbn [bind].
     destruct (size - poskd - 8 <? len) eqn:B3; [eexists; split; [reflexivity|now right]|].
     destruct (size - poskd - 8 - len <? dlen) eqn:B4; [eexists; split; [reflexivity|now right]|].
     apply N.ltb_ge in B3, B4. cbn [orb].
     destruct (strncmp_ok f size (N.to_nat len) (poskd + 8) key) as [e ->]; [rewrite N2Nat.id; lia|]. cbn [bind].
     destruct e; [|exact IH].
-    eexists. split; [reflexivity|]. simpl. lia.
+    eexists. split; [reflexivity|]. simpl. split; [lia|]. split; [lia|]. exists dlen.
+    replace (poskd + 8 + len - len - 4) with (poskd + 4) by lia. split; [exact ED|lia].
 Qed.
 
 Lemma tabmask_le h : N.land h CDB_TABMASK <= 255.
@@ -61,7 +64,7 @@ Proof.
 Qed.
 
 Theorem cdb_seekmm_safe f key :
-  exists r, cdb_seekmm f key = Ok r /\ seek_post (N.of_nat (length f)) (N.of_nat (length key)) r.
+  exists r, cdb_seekmm f key = Ok r /\ seek_post f (N.of_nat (length f)) (N.of_nat (length key)) r.
 Proof.
   unfold cdb_seekmm. set (size := N.of_nat (length f)). set (len := N.of_nat (length key)).
   destruct (size =? 0); [eexists; split; [reflexivity|now left]|].
